@@ -561,12 +561,14 @@ func (t *diskTrack) writeBuffered(force bool) error {
 		}
 
 		if valid(t.origin) && int32(ts-value(t.origin)) < 0 {
-			if value(t.origin)-ts < 0x10000 {
-				// late packet before origin, drop
+			if value(t.origin)-ts < 0x40000000 {
+				// a sample up to 2^30 ticks before the
+				// origin is late, drop
 				continue
 			}
-			// we've gone around 2^31 timestamps, force
-			// creating a new file to avoid wraparound
+			// only beyond that have we gone around 2^31
+			// timestamps, force creating a new file to
+			// avoid wraparound
 			t.conn.closeFile()
 		}
 
